@@ -4,6 +4,7 @@ import (
 	"context"
 	"fmt"
 	"math/rand"
+	"strings"
 
 	corev1 "k8s.io/api/core/v1"
 	storagev1 "k8s.io/api/storage/v1"
@@ -264,7 +265,7 @@ func volumeRefusal(e *world.Env, cn oracle.ConcreteNode, placed, others []*corev
 			if vi.terms != nil {
 				sel, err := nodeaffinity.NewNodeSelector(vi.terms)
 				if err == nil && !sel.Match(node) {
-					return fmt.Sprintf("pod %s: volume %s is bound to a PersistentVolume whose node affinity does not match the node (zone %q)", p.Name, vi.key, cn.Labels[corev1.LabelTopologyZone])
+					return fmt.Sprintf("pod %s: volume %s is bound to a PersistentVolume whose node affinity %s does not match the node (zone %q)", p.Name, vi.key, termsString(vi.terms), cn.Labels[corev1.LabelTopologyZone])
 				}
 			}
 			if len(vi.topo) > 0 {
@@ -321,4 +322,77 @@ func volumeRefusal(e *world.Env, cn oracle.ConcreteNode, placed, others []*corev
 		}
 	}
 	return ""
+}
+
+func termsString(ns *corev1.NodeSelector) string {
+	if ns == nil {
+		return ""
+	}
+	var ts []string
+	for _, t := range ns.NodeSelectorTerms {
+		var es []string
+		for _, e := range t.MatchExpressions {
+			es = append(es, fmt.Sprintf("%s %s %v", e.Key, e.Operator, e.Values))
+		}
+		ts = append(ts, "("+strings.Join(es, " AND ")+")")
+	}
+	return strings.Join(ts, " OR ")
+}
+
+// volumeSummaries (witness only): the resolved volumes of the judged pods.
+func volumeSummaries(e *world.Env, pods []*corev1.Pod) map[string][]string {
+	out := map[string][]string{}
+	if !volumesOn {
+		return out
+	}
+	for _, p := range pods {
+		for _, vi := range podVolumes(e, p) {
+			out[p.Name] = append(out[p.Name], fmt.Sprintf("%s driver=%s pv-affinity=%s allowedTopologies=%v", vi.key, vi.driver, termsString(vi.terms), vi.topo))
+		}
+	}
+	return out
+}
+
+// volumeZonesContradict (classification only): the zone sets of the pod's volumes (bound PV affinity / StorageClass
+// allowedTopologies) intersect to nothing, so no node at all can take the pod.
+func volumeZonesContradict(e *world.Env, p *corev1.Pod) bool {
+	var inter map[string]bool
+	n := 0
+	for _, vi := range podVolumes(e, p) {
+		zs := map[string]bool{}
+		if vi.terms != nil {
+			for _, t := range vi.terms.NodeSelectorTerms {
+				for _, x := range t.MatchExpressions {
+					if x.Key == corev1.LabelTopologyZone && x.Operator == corev1.NodeSelectorOpIn {
+						for _, v := range x.Values {
+							zs[v] = true
+						}
+					}
+				}
+			}
+		}
+		for _, t := range vi.topo {
+			for _, x := range t.MatchLabelExpressions {
+				if x.Key == corev1.LabelTopologyZone {
+					for _, v := range x.Values {
+						zs[v] = true
+					}
+				}
+			}
+		}
+		if len(zs) == 0 {
+			continue
+		}
+		n++
+		if inter == nil {
+			inter = zs
+			continue
+		}
+		for z := range inter {
+			if !zs[z] {
+				delete(inter, z)
+			}
+		}
+	}
+	return n >= 2 && len(inter) == 0
 }
